@@ -462,6 +462,11 @@ class SlowTarget:
         finally:
             self.ended.add(arg)
 
+    def block(self, began, release):
+        # a plain method that keeps the owner's loop busy for a moment (everything queued behind it waits)
+        began.set()
+        release.wait(5)
+
     async def slow_plain(self, arg):
         return await self._body(arg, "plain")
 
@@ -592,7 +597,26 @@ async def run_stop_script(plan, r: Result):
             if time.monotonic() - t0 > 8:
                 raise asyncio.TimeoutError()
             await asyncio.sleep(0.005)
-        owner.force_stop()
+        early = plan.get("early") or []
+        early_futs = []
+        if early:
+            # calls submitted just before the stop request, while the owner's loop is busy with something else: they are
+            # queued on the owner's loop but have not begun when force_stop() is called.  They too must get an outcome.
+            import threading
+
+            began, release = threading.Event(), threading.Event()
+            proxy.block(began, release)
+            while not began.is_set():
+                if time.monotonic() - t0 > 8:
+                    release.set()
+                    raise asyncio.TimeoutError()
+                await asyncio.sleep(0.002)
+            for i, kind in enumerate(early):
+                early_futs.append((kind, getattr(proxy, kind)(1000 + i)))
+            owner.force_stop()
+            release.set()
+        else:
+            owner.force_stop()
         try:
             await asyncio.wait_for(asyncio.shield(done_evt), 10)
         except asyncio.TimeoutError:
@@ -603,6 +627,18 @@ async def run_stop_script(plan, r: Result):
             raise asyncio.TimeoutError()
         gate["stop"] = True
         await asyncio.gather(*jobs)
+        if early_futs:
+            r.cls("calls-queued-behind-a-busy-owner-at-force-stop")
+            for _ in range(20):
+                await asyncio.sleep(0.005)
+            for kind, f in early_futs:
+                if not f.done():
+                    r.bad("C20:caller-left-waiting-after-owner-stopped", f"{kind} submitted just before force_stop() while the owner's loop was busy: the owner's loop is closed and the caller's future never completed; plan {plan}")
+                    f.cancel()
+                    return 0
+                if not f.cancelled() and f.exception() is not None and type(f.exception()).__name__ not in ("CancelledError", "Boom"):
+                    r.bad("C20:unexpected-outcome-after-owner-stopped", f"{kind} (queued): {f.exception()!r}")
+                    return 0
         for cid, (kind, caller) in enumerate(plan["calls"]):
             got = out.get(cid)
             if got is None or got[0] == "pending":
@@ -677,6 +713,7 @@ stop_plans = st.fixed_dictionaries({
     "state": st.just("stop-inflight"),
     "calls": st.lists(st.tuples(st.sampled_from(["slow_plain", "slow_clean", "slow_raise", "slow_return"]), st.sampled_from(["main", "main", "second"])).map(list),
                       min_size=1, max_size=6),
+    "early": st.lists(st.sampled_from(["slow_plain", "slow_clean", "slow_raise", "slow_return"]), max_size=3),
 })
 
 
@@ -686,6 +723,10 @@ def _worker(ctx, n):
             continue  # once the attribute is a non-callable the plain-method steps need it rebound first: keep it last-ish
         plan = {"state": "rebind", "order": list(order)}
         ctx.check(plan, check(plan))
+    for early in (["slow_clean"], ["slow_plain", "slow_raise", "slow_return"]):
+        for calls in ([["slow_clean", "main"]], [["slow_return", "second"], ["slow_plain", "main"]]):
+            plan = {"state": "stop-inflight", "calls": calls, "early": early}
+            ctx.check(plan, check(plan))
     ctx.search(stop_plans, check, max_examples=max(n // 4, 6), shrink=False)
     ctx.search(plans(), check, max_examples=n, shrink=False)
     if ctx.classes.get("inconclusive-wall-guard", 0) > n // 2:
